@@ -75,17 +75,25 @@ package json
 //@   loop 1 invariant (forall ((j Int)) (! (=> (and (trig j) (<= (tuple_off tup) j) (< j (+ (tuple_off tup) idx))) (conforms (vty (hval_at $H<Arr<cty.Value>> vals (- j (tuple_off tup)))) (select (tuple_arr tup) j))) :pattern ((select (tuple_arr tup) j))))
 //@   loop 1 invariant (forall ((j Int)) (! (=> (and (trig j) (<= 0 j) (< j idx)) (let ((v (hval_at $H<Arr<cty.Value>> vals j))) (and (wf_ty (vty v)) (wf_marks v) (not (has_opt (vty v)))))) :pattern ((trig j))))
 //
-// Not under contract yet (assumed to return an error or a conforming, well-formed value): the object,
-// dynamic and capsule decoders.
 //@ func json.unmarshalObject
-//@   trusted
+//@   tags C17
 //@   borrows path
-//@   ensures (=> (= result.1 nil.Any) (decoded_ok result.0 (mk.cty.Type (box<cty.typeObject> (mk.cty.typeObject mk.cty.typeImplSigil atys 0)))))
+//@   requires (and (not (= atys 0)) (MapC<String~cty.Type>.ok (tmap atys)) (forall ((k String)) (! (=> (select (tmap_dom atys) k) (and (= (nfc k) k) (wf_ty (tmap_at atys k)) (not (has_opt (tmap_at atys k))))) :pattern ((select (tmap_dom atys) k)))))
+//@   ensures[C17] ok: (=> (= result.1 nil.Any) (decoded_ok result.0 (mk.cty.Type (box<cty.typeObject> (mk.cty.typeObject mk.cty.typeImplSigil atys 0)))))
+//@   let vm (select $H<MapC<String~cty.Value>> vals)
+//@   loop 1 invariant (and (< vals 0) (MapC<String~cty.Value>.ok vm))
+//@   loop 1 invariant (forall ((k String)) (! (=> (select (MapC<String~cty.Value>.dom vm) k) (and (select (tmap_dom atys) k) (decoded_ok (select (MapC<String~cty.Value>.val vm) k) (tmap_at atys k)))) :pattern ((select (MapC<String~cty.Value>.dom vm) k))))
+//@   loop 2 invariant (and (< vals 0) (MapC<String~cty.Value>.ok vm))
+//@   loop 2 invariant (forall ((k String)) (! (=> (select (MapC<String~cty.Value>.dom vm) k) (and (select (tmap_dom atys) k) (decoded_ok (select (MapC<String~cty.Value>.val vm) k) (tmap_at atys k)))) :pattern ((select (MapC<String~cty.Value>.dom vm) k))))
+//@   loop 2 invariant (forall ((k String)) (! (=> (select $visited k) (select (MapC<String~cty.Value>.dom vm) k)) :pattern ((select $visited k))))
 //
+// Not under contract yet (assumed to return an error or a conforming, well-formed value): the dynamic
+// and capsule decoders.
 //@ func json.unmarshalDynamic
-//@   trusted
+//@   tags C17
 //@   borrows path
-//@   ensures (=> (= result.1 nil.Any) (decoded_ok result.0 $G<cty.DynamicPseudoType>))
+//@   ensures[C17] ok: (=> (= result.1 nil.Any) (decoded_ok result.0 $G<cty.DynamicPseudoType>))
+//@   loop 1 invariant (or (= t $G<cty.NilType>) (wf_ty t))
 //
 //@ func json.unmarshalCapsule
 //@   trusted
@@ -101,3 +109,8 @@ package json
 //@   trusted
 //@ func json.bufDecoder
 //@   trusted
+//
+//@ func json.Unmarshal
+//@   tags C17
+//@   requires (and (wf_ty t) (not (has_opt t)))
+//@   ensures[C17] ok: (=> (= result.1 nil.Any) (decoded_ok result.0 t))
